@@ -119,7 +119,7 @@ theorem collQual_exact {sC : Schema} {specC : BlockSpec} {wn : Str} {si : Nat} {
     rw [h0]
     exact h
   exact walkQualifiers_block (tagSpec := ⟨wn, none, none, false, true⟩) (ref := refOf [fieldKind items]) hq rfl rfl
-    (buildScope_keep (combinePath_ident (kind_ascii items) [wn])
+    (buildScope_keep_run (combinePath_ident (kind_ascii items) [wn])
       (walkScope_cons h1 (walkScope_cons h2 (walkScope_nil _ _ _))))
     (checkBang_none _ _ rfl) hq2'
 
